@@ -126,6 +126,7 @@ pub fn judge_range_api(ctx: &Ctx, l: &mut Local, p: &Params, site: Site, start: 
 
 pub fn explore(ctx: &Ctx) {
     // call sequences from non-initial states (see history.rs)
+    crate::history::explore(ctx, "long_ranges", &crate::history::alphabet_long_ranges(), 2);
     crate::history::explore(ctx, "policy", &crate::history::alphabet_policy(), 2);
     let quick = ctx.tier == Tier::Quick;
     crate::c07::install_quiet_hook();
